@@ -47,7 +47,8 @@ class C19(Prop):
         "C19_reads_per_procedure", "C19_ignored_read_follows_registration_complete",
         "C19_unchecked_builds_feed_checked_write", "C19_release_only_writes",
         "C19_failstop", "C19_failstop_peer_closes_between_messages", "C19_reads", "C19_read_count",
-        "C19_ignored_reads",
+        "C19_ignored_reads", "C19_write_count", "C19_model_matches_skeleton", "C19_failstop_spec",
+        "C19_failstop_close_after_uplink_spec",
     ]]
     domains = [Domain("failstop", 0, 40, tags="verif")]
     rule = ("failstop: the real stgutgmain (go build -tags verif from the working tree, test mode) against the scripted N2 peer "
